@@ -49,9 +49,17 @@ inductive PC where
   | instDelete (k : Key) (a : Ans)
   deriving DecidableEq, Repr, Inhabited
 
+/-- what a thread does next: look a name up through the file-based loader, or through its PARENT (a plain parented
+    loader that binds nothing here: the lookup misses and leaves a miss marker in the parent, which the file-based loader's
+    `parentedLoader.LoadEntry` skips — `entry.Value() == nil` → own map) -/
+inductive FOp where
+  | load (k : Key)
+  | loadParent (k : Key)
+  deriving DecidableEq, Repr, Inhabited
+
 structure Thread where
   pc : PC
-  ops : List Key                                -- the names still to be loaded
+  ops : List FOp
   log : List Ans
   deriving DecidableEq, Repr, Inhabited
 
@@ -94,7 +102,8 @@ def stepThread (files : List (Key × V)) (i : Nat) (s : Shared) (t : Thread) : S
   | .idle =>
     match t.ops with
     | [] => (s, t)
-    | k :: rest =>
+    | .loadParent _ :: rest => (s, { pc := .idle, ops := rest, log := t.log ++ [.notfound] })
+    | .load k :: rest =>
       match lk k s.es with
       | none => (s, { pc := .ldCheck k, ops := rest, log := t.log })
       | e => (s, { pc := .idle, ops := rest, log := t.log ++ [ansOfEntry e] })
@@ -141,7 +150,7 @@ inductive Reachable (c0 : Config) : Config → Prop where
   | init : Reachable c0 c0
   | step {c : Config} (i : Nat) : Reachable c0 c → Reachable c0 (stepAt c i)
 
-def Config.init (files : List (Key × V)) (progs : List (List Key)) : Config :=
+def Config.init (files : List (Key × V)) (progs : List (List FOp)) : Config :=
   { files := files, es := [], locks := [], held := [], nextMx := 0, reads := [],
     th := progs.map fun p => { pc := .idle, ops := p, log := [] } }
 
@@ -189,7 +198,7 @@ def drainThread : Nat → Config → Nat → Config
 def drainPass (c : Config) : Config :=
   (List.range c.th.length).foldl (fun c i => drainThread (4 * (c.th.getD i default).ops.length + 4) c i) c
 
-def execute (files : List (Key × V)) (progs : List (List Key)) (sched : List Nat) : Config :=
+def execute (files : List (Key × V)) (progs : List (List FOp)) (sched : List Nat) : Config :=
   let c := runSched (Config.init files progs) sched
   (List.range c.th.length).foldl (fun c _ => drainPass c) c
 
